@@ -179,6 +179,8 @@ def gen(rng, tier, shard, nshards):
                         kind = "wrongvalue"
                     else:
                         continue
+                if any(b2 == b and k2 != kind for _, b2, k2 in bads):
+                    continue      # printed errors are attributed by the echoed text: one expectation per text
                 bads.append([p, b, kind])
             if bads:
                 yield {"op": "bad", "c": {"fmt": fmt, "text": text, "ins": bads, "bad": [b for _, b, _ in bads]}}
